@@ -23,7 +23,7 @@ def sh(cmd, **k):
 
 def run_demo(demo, pid):
     src = open(demo).read()
-    for base in ('/tmp/seed7', '/tmp/seed6', '/tmp/seed5', '/tmp/seed4', '/tmp/seed3', '/tmp/seed2', '/tmp/seed'):
+    for base in ('/tmp/seed8', '/tmp/seed7', '/tmp/seed6', '/tmp/seed5', '/tmp/seed4', '/tmp/seed3', '/tmp/seed2', '/tmp/seed'):
         src = src.replace('%s/%s' % (base, pid), WT)
     tmp = '/tmp/evalseed_demo_%d.py' % os.getpid()
     open(tmp, 'w').write(src)
